@@ -13,7 +13,7 @@ cls(
         "context": "obj hypercorn.typing:WorkerContext", "response": "maybe msg(headers:short)", "scope": "maybe " + SCOPE,
         "send": "opaque", "scheme": "str", "server": "opaque", "start_time": "maybe real",
         "state": "enum hypercorn.protocol.http_stream:ASGIHTTPState", "stream_id": "int",
-        "task_group": "obj hypercorn.typing:TaskGroup", "app_put": "opaque",
+        "task_group": "obj hypercorn.typing:TaskGroup", "app_put": "none",
     },
     ghost={
         "g_app_started": "bool",  # spawn_app has been called (scope and app_put are set)
@@ -77,6 +77,10 @@ cls(
     # a stream that a protocol holds has been given its Request
     published_inv=[("HTTPStream.published.requested", "has(self, 'scope') and has(self, 'start_time')", "C04")],
     task_inv={
+        # quiescent for the reader (handle() is not in progress): a stream that has been given its
+        # Request has either started its application or is closed (404 / refused) -- later body
+        # events are delivered to a started application or dropped
+        "reader": [("HTTPStream.qinv.started-or-closed", "implies(has(self, 'scope'), self.closed or self.g_app_started)", "C01,C04")],
         # quiescent (no app_send in flight; app_send is assumed not to be re-entered): state
         # determines what has been emitted
         "app": [
